@@ -51,6 +51,7 @@ type C15Step struct {
 	// fail     complete the W-th pending seamed fork with an error
 	// real     complete the W-th pending seamed fork by starting a real in-process node.Worker
 	// err      AddErrWorker for the W-th tracked worker (N=1: wrapped ErrWorkerKill, N=2: unknown address)
+	// err2     two AddErrWorker calls queued back to back (inside one Machine.Eval) for the W-th and (W+N)-th tracked worker
 	// kill     Add KillingWorker for the W-th tracked worker (N=1: the seam returns an error, N=2: the seam "forgets" WorkerKilled)
 	// killed   Add WorkerKilled for the W-th tracked worker
 	// unset    Add SetWorker with a nil info (delete) for the W-th tracked worker
@@ -134,6 +135,7 @@ type c15Tracer struct {
 	cur      c15Rec
 	last     time.Time
 	unstable *atomic.Int32
+	closed   atomic.Bool // teardown: disposal is not a withdrawal
 	maxSeen  int
 	// notifications for the driver
 	events chan struct{}
@@ -257,6 +259,9 @@ func (t *c15Tracer) classify(tx *am.Transition) (string, string) {
 	if len(called) == 1 && mut.Type == am.MutationRemove && called[0] == c15S.PoolReady {
 		return "ETryUnready", name
 	}
+	if mut.Type == am.MutationRemove && slices.Contains(called, c15S.ErrWorker) {
+		return "EErrClear", name
+	}
 	if mut.Type == am.MutationAdd && slices.Contains(called, c15S.ErrWorker) {
 		ex := am.ParseArgs[am.AException](mut.Args)
 		if a.LocalAddr != "" {
@@ -272,6 +277,9 @@ func (t *c15Tracer) classify(tx *am.Transition) (string, string) {
 }
 
 func (t *c15Tracer) TransitionEnd(tx *am.Transition) {
+	if t.closed.Load() {
+		return
+	}
 	a, r, m := t.s.VerifPool()
 	ev, name := t.classify(tx)
 	after := t.sidx(t.s.Mach.ActiveStates(nil))
@@ -638,6 +646,16 @@ func (r *c15Run) step(st C15Step) {
 			err = fmt.Errorf("%w: %w", node.ErrWorkerKill, errC15Worker)
 		}
 		node.AddErrWorker(nil, s.Mach, err, node.Pass(&node.A{LocalAddr: addr}))
+	case "err2":
+		a1, ok := r.pick(st.W)
+		a2, _ := r.pick(st.W + st.N)
+		if !ok {
+			return
+		}
+		s.Mach.Eval("c15err2", func() {
+			node.AddErrWorker(nil, s.Mach, errC15Worker, node.Pass(&node.A{LocalAddr: a1}))
+			node.AddErrWorker(nil, s.Mach, errC15Worker, node.Pass(&node.A{LocalAddr: a2}))
+		}, r.ctx)
 	case "kill":
 		addr, ok := r.pick(st.W)
 		if !ok {
@@ -794,6 +812,7 @@ func c15ExecPool(in *C15Input) *c15Obs {
 	if len(reals) > 0 {
 		time.Sleep(20 * time.Millisecond)
 	}
+	r.tr.closed.Store(true)
 	cancel()
 	select {
 	case <-s.Mach.WhenDisposed():
@@ -849,7 +868,10 @@ func c15RunChildren(c *Ctx, ins []*C15Input) ([]*c15Obs, int) {
 		var stderr bytes.Buffer
 		cmd.Stderr = &stderr
 		must(cmd.Start())
-		rest := ins[i:]
+		// one case per process: a stopped Supervisor leaves rpc.Mux.accept
+		// spinning on its closed listener (for { Accept(); if err { AddErr; continue } }),
+		// which would starve the cases that follow
+		rest := ins[i : i+1]
 		go func() {
 			enc := json.NewEncoder(stdin)
 			for _, in := range rest {
@@ -876,7 +898,7 @@ func c15RunChildren(c *Ctx, ins []*C15Input) ([]*c15Obs, int) {
 			}
 		}()
 		failed := false
-		for !failed && i < len(ins) {
+		for n := 0; !failed && n < len(rest); n++ {
 			select {
 			case it := <-ch:
 				if it.err != nil {
@@ -889,7 +911,12 @@ func c15RunChildren(c *Ctx, ins []*C15Input) ([]*c15Obs, int) {
 				failed = true
 			}
 		}
-		_ = cmd.Process.Kill()
+		if failed {
+			_ = cmd.Process.Kill()
+		} else {
+			t := time.AfterFunc(3*time.Second, func() { _ = cmd.Process.Kill() })
+			defer t.Stop()
+		}
 		_ = cmd.Wait()
 		if failed && i < len(ins) {
 			msg := stderr.String()
@@ -1080,7 +1107,7 @@ func c15CoqSets(sets [][]int) string {
 	return "[" + strings.Join(parts, "; ") + "]"
 }
 
-func c15Coq(in *C15Input, obs *c15Obs, prIdx int) string {
+func c15Coq(in *C15Input, obs *c15Obs, prIdx, ewIdx int, ewMulti bool) string {
 	if in.Explore != "" {
 		name := "sup"
 		if in.Explore == "worker" {
@@ -1092,8 +1119,8 @@ func c15Coq(in *C15Input, obs *c15Obs, prIdx int) string {
 	for i := range obs.Recs {
 		parts[i] = c15CoqRec(&obs.Recs[i])
 	}
-	return fmt.Sprintf("C15Pool {| c_min := %d; c_max := %d; c_errkill := %d |} %d%%nat sup_groups\n  %s\n  wrk_groups %s",
-		in.Min, in.Max, in.ErrKill, prIdx, coqList(parts), c15CoqSets(obs.WSets))
+	return fmt.Sprintf("C15Pool {| c_min := %d; c_max := %d; c_errkill := %d |} %s %d%%nat %d%%nat sup_groups\n  %s\n  wrk_groups %s",
+		in.Min, in.Max, in.ErrKill, coqBool(ewMulti), prIdx, ewIdx, coqList(parts), c15CoqSets(obs.WSets))
 }
 
 // ---------------------------------------------------------------- generators
@@ -1129,6 +1156,9 @@ func c15GenPool(r *Rng, real bool) *C15Input {
 			}
 		case x < 46:
 			st.Op = "fail"
+		case x < 50:
+			st.Op = "err2"
+			st.N = r.Intn(3)
 		case x < 62:
 			st.Op = "err"
 			if r.Chance(15) {
@@ -1200,6 +1230,7 @@ func runC15(c *Ctx) error {
 	wrk, _ := c15LoadSchema(lctx, nstates.WorkerSchema, c15Wk.Names(), nstates.WorkerGroups)
 	lcancel()
 	prIdx := slices.Index(sup.Names, c15S.PoolReady)
+	ewIdx := slices.Index(sup.Names, c15S.ErrWorker)
 
 	out := NewOut(c.OutDir, "C15",
 		"From Coq Require Import List NArith.\nFrom AMV Require Import Model.Schema Conc.Pool Run.EvalC15.\nImport ListNotations.",
@@ -1246,7 +1277,7 @@ func runC15(c *Ctx) error {
 			trivial = len(obs.Recs) < 6
 		}
 		key := ""
-		out.Add(j.kind, in, obs, c15Coq(in, obs, prIdx), trivial, key)
+		out.Add(j.kind, in, obs, c15Coq(in, obs, prIdx, ewIdx, sup.States[ewIdx].Multi), trivial, key)
 	}
 
 	crashes := 0
